@@ -193,7 +193,7 @@ class Run:
         self.client = None
 
 
-def run_case(case, client=None, frames=None, keep_client=True):
+def run_case(case, client=None, frames=None, keep_client=True, args=None):
     """Run ModelClient.get_estimates on the case.  Returns a Run; exceptions are captured, not swallowed."""
     from elexmodel.client import ModelClient
 
@@ -205,25 +205,39 @@ def run_case(case, client=None, frames=None, keep_client=True):
     req = case["req"]
     if case.get("versions") is not None:
         with _versions_patch(case):
-            return _run(case, client, r, pre, cur)
-    return _run(case, client, r, pre, cur)
+            return _run(case, client, r, pre, cur, args)
+    return _run(case, client, r, pre, cur, args)
 
 
-def _run(case, client, r, pre, cur):
+def call_arguments(case):
+    """The argument objects of one get_estimates call (estimands, levels, config, model parameters, keyword lists):
+    built fresh from the case; a caller that wants to pass THE SAME objects to several calls keeps the result."""
     req = case["req"]
+    return {
+        "estimands": list(req["estimands"]),
+        "alphas": list(req["alphas"]),
+        "raw_config": make_config(case),
+        "model_parameters": copy.deepcopy(req["mp"]),
+        "kwargs": request_kwargs(case),
+    }
+
+
+def _run(case, client, r, pre, cur, args=None):
+    req = case["req"]
+    a = args if args is not None else call_arguments(case)
     try:
         res = client.get_estimates(
             cur,
             case.get("election_id", ELECTION_ID),
             case["office"],
-            list(req["estimands"]),
-            list(req["alphas"]),
+            a["estimands"],
+            a["alphas"],
             req["thr"],
             case["gut"],
-            raw_config=make_config(case),
+            raw_config=a["raw_config"],
             preprocessed_data=pre,
-            model_parameters=copy.deepcopy(req["mp"]),
-            **request_kwargs(case),
+            model_parameters=a["model_parameters"],
+            **a["kwargs"],
         )
         r.tables = {k: v.copy() for k, v in res.items()}
         r.ok = True
